@@ -178,7 +178,7 @@ def _child_main(wfd, fn, indices, per_run_timeout):
     out = os.fdopen(wfd, "w", buffering=1)
     faulthandler.enable()
 
-    class _Timeout(Exception):
+    class _Timeout(BaseException):  # (not an Exception: no catch-all of the harness or the library may turn it into a verdict)
         pass
 
     def on_alarm(signum, frame):
